@@ -327,6 +327,45 @@ def cursor_writers(ctx, prog):
                           "%s sets the shared group's cursor (to a departing member's oldest unacknowledged offset): everything forwarded to — and acknowledged by — the other members since that offset is read and forwarded again" % body.id,
                           site=body.loc(st.get("sp")))
     ctx.floor(rule, "writes of SharedGroup.cursor", n, 2)
+    # the INITIAL cursor: a group created for a new subscription starts at the log position handed to prepare_filter
+    # (next_native_offset: nothing older is owed to anybody). A group created while a session is RESUMED has a past:
+    # other members may have read on since this member left; its private saved cursor is not the group's position
+    # ... unless every place that drops a group (its last connected member left) hands the group's cursor to the
+    # sessions saved in the graveyard, so that a restored request carries the group's last position
+    handed = []
+    for body, bb, t in call_sites(prog, r"router::shared_subs::SharedGroup::remove_client$"):
+        empties = [b2 for b2, t2 in body.calls() if callee_path(t2).endswith("SharedGroup::is_empty") and not body.is_cleanup(b2)]
+        ok_here = False
+        for b2, t2 in body.calls():
+            if body.is_cleanup(b2) or not re.search(r"^router::graveyard::Graveyard::", callee_path(t2)):
+                continue
+            from_group = False
+            for a in t2["args"][1:]:
+                for x in flatten_src(provenance(body, a)):
+                    if getattr(x, "fields", None) and x.fields[-1] == "cursor" and x.kind in ("param", "field", "call"):
+                        from_group = True
+            if from_group and any(b2 in reachable_after(body, [e]) for e in empties):
+                ok_here = True
+        handed.append((body.id, ok_here))
+    all_handed = bool(handed) and all(okh for _, okh in handed)
+    sites = 0
+    for body, bb, t in call_sites(prog, r"router::shared_subs::SharedGroup::new$"):
+        if body.id.startswith("router::shared_subs::") and "tests" in body.id:
+            continue
+        sites += 1
+        src = flatten_src(provenance(body, t["args"][0]))
+        if body.id.endswith("Router::prepare_filter") and src and all(x.kind == "param" for x in src):
+            ctx.ok(rule, body.id, "a group created by a subscription starts at the position handed to prepare_filter", site=body.loc(t.get("sp")))
+        elif any(getattr(x, "fields", None) and x.fields[-1] == "cursor" for x in src) and all_handed:
+            ctx.ok(rule, body.id, "a group re-created at resume starts at the restored request's cursor, and every site that drops a group hands the group's cursor to the saved sessions (%s)" % ", ".join(sorted(i.rsplit("::", 2)[-2] + "::" + i.rsplit("::", 1)[-1] for i, _ in handed)),
+                   site=body.loc(t.get("sp")))
+        elif any(getattr(x, "fields", None) and x.fields[-1] == "cursor" for x in src):
+            ctx.violation(rule, body.id, "group re-created from a member's saved cursor",
+                          "%s creates the shared group again with the cursor of a restored DataRequest, but a group is dropped with its cursor when its last connected member leaves (%s do not hand it to the saved sessions): the resuming member's private cursor dates from when IT left — "
+                          "everything the other members received in between is forwarded a second time" % (body.id, [i for i, okh in handed if not okh]), site=body.loc(t.get("sp")))
+        else:
+            ctx.violation(rule, body.id, "group created with an unknown cursor", "SharedGroup::new is called with a cursor of unknown origin (%s)" % sorted({x.kind for x in src}), site=body.loc(t.get("sp")))
+    ctx.floor(rule, "SharedGroup::new call sites", sites, 1)
 
 
 def group_key(ctx, prog):
